@@ -349,13 +349,13 @@ def r09g(ctx):
 
 
 def run(ctx):
-    r09a(ctx)
-    r09b(ctx)
-    r09c(ctx)
-    r09d(ctx)
-    r09e(ctx)
-    r09f(ctx)
-    r09g(ctx)
+    ctx.guard(r09a)
+    ctx.guard(r09b)
+    ctx.guard(r09c)
+    ctx.guard(r09d)
+    ctx.guard(r09e)
+    ctx.guard(r09f)
+    ctx.guard(r09g)
 
 
 SELFTEST = {
